@@ -1679,5 +1679,5 @@ class XsdAlternative(XsdComponent):
         try:
             result = list(self.token.select(context=XPathContext(elem)))
             return self.token.boolean_value(result)
-        except (TypeError, ValueError):
-            return False
+        except (TypeError, ValueError, ElementPathError, ArithmeticError):
+            return False  # a dynamic error in the test means that the alternative is not selected
